@@ -236,7 +236,7 @@ pub fn roundtrip(args: &[String]) {
 
 const POOL9: &[&str] = &[
     "a", " ", "  ", "\t", "\n", "\r", "\r\n", "\"", "\"\"", "\"\"\"", "\\", "\\\"\"\"", "é", "🚀", "\u{feff}", "\u{8}", "\u{1f}",
-    "\u{0}", "\u{7f}", "\n ", "\n  ", " \n", "\n\n", "\\n", "\\u0041", "#", "\u{2028}", "\u{c}", "\u{b}", "x",
+    "\u{0}", "\u{7f}", "\u{85}", "\u{9f}", "\u{80}", "\n ", "\n  ", " \n", "\n\n", "\\n", "\\u0041", "#", "\u{2028}", "\u{c}", "\u{b}", "x",
 ];
 
 /// C09 random values as ["CASE", cps] lines
